@@ -121,30 +121,46 @@ class HTTPConnection(ConnectionInterface):
 
         while True:
             try:
-                if self._uds is None:
-                    kwargs = {
-                        "host": self._origin.host.decode("ascii"),
-                        "port": self._origin.port,
-                        "local_address": self._local_address,
-                        "timeout": timeout,
-                        "socket_options": self._socket_options,
-                    }
-                    with Trace("connect_tcp", logger, request, kwargs) as trace:
-                        stream = self._network_backend.connect_tcp(**kwargs)
-                        trace.return_value = stream
-                else:
-                    kwargs = {
-                        "path": self._uds,
-                        "timeout": timeout,
-                        "socket_options": self._socket_options,
-                    }
-                    with Trace(
-                        "connect_unix_socket", logger, request, kwargs
-                    ) as trace:
-                        stream = self._network_backend.connect_unix_socket(
-                            **kwargs
-                        )
-                        trace.return_value = stream
+                connected: NetworkStream | None = None
+                try:
+                    if self._uds is None:
+                        kwargs = {
+                            "host": self._origin.host.decode("ascii"),
+                            "port": self._origin.port,
+                            "local_address": self._local_address,
+                            "timeout": timeout,
+                            "socket_options": self._socket_options,
+                        }
+                        with Trace(
+                            "connect_tcp", logger, request, kwargs
+                        ) as trace:
+                            connected = self._network_backend.connect_tcp(
+                                **kwargs
+                            )
+                            trace.return_value = connected
+                    else:
+                        kwargs = {
+                            "path": self._uds,
+                            "timeout": timeout,
+                            "socket_options": self._socket_options,
+                        }
+                        with Trace(
+                            "connect_unix_socket", logger, request, kwargs
+                        ) as trace:
+                            connected = (
+                                self._network_backend.connect_unix_socket(
+                                    **kwargs
+                                )
+                            )
+                            trace.return_value = connected
+                except BaseException as exc:
+                    # The trace callback that reports the established stream
+                    # may fail or be cancelled. Nothing else owns the stream yet.
+                    if connected is not None:
+                        with ShieldCancellation():
+                            connected.close()
+                    raise exc
+                stream = connected
 
                 if self._origin.scheme in (b"https", b"wss"):
                     ssl_context = (
